@@ -157,7 +157,7 @@ CHECKS.append({
     "design_ref": "DESIGN.md 5 (C08)",
     "technique": "Coq proof (ring over R; list induction over catalogues in an abstract image algebra) about kernels, composite wiring and scene assembly "
                  "regenerated from rendering.py + interval-arithmetic translator validation against the JAX functions; implementation-side identity oracle",
-    "text": "Thirteen theorems (Props/C08.v) for ALL parameters and scale factors (negative, zero): each evaluation kernel is linear in flux/amplitude; "
+    "text": "Fifteen theorems (Props/C08.v; the last two: circular convolution with the PSF is additive and homogeneous in the scene, every frame size) for ALL parameters and scale factors (negative, zero): each evaluation kernel is linear in flux/amplitude; "
             "doublesersic / sersic_exp / sersic_pointsource are exactly two components with fractions f and 1-f at the same centre and angle; exp and dev "
             "are Sersic n=1,4; in any image algebra with additive convolution operators a scene is the sum of its individually rendered sources (list "
             "induction, any catalogue) and a composite the sum of its components.  Kernels are re-extracted and numerically certified against the "
@@ -172,7 +172,8 @@ CHECKS.append({
     "design_ref": "DESIGN.md 5 (C09)",
     "technique": "Coq proof (trigonometric-polynomial identities: angle-shift rewriting + ring with sin^2 = 1 - cos^2) about the three evaluation kernels "
                  "regenerated from rendering.py + interval-arithmetic translator validation; implementation-side symmetry oracle on image pairs",
-    "text": "Seven theorems (Props/C09.v), pointwise for ALL parameters, on the analytic Sersic kernel, the real-space Gaussians and the Fourier Gaussians: "
+    "text": "Ten theorems (Props/C09.v).  Image level, every frame size and all arrays: the PSF convolution (circular convolution, which C03 proves conv_fft computes) commutes with "
+            "whole-pixel translation, with transposition of scene and PSF, and with the mirror X -> N-1-X of scene and odd PSF stamp.  Pointwise for ALL parameters, on the analytic Sersic kernel, the real-space Gaussians and the Fourier Gaussians: "
             "theta+pi invariance; no dependence on theta at ellip=0; transpose and mirror covariance; translation (Fourier components pick up the shift "
             "phase); theta+k*pi for every k.  The kernels are re-extracted and certified against the JAX code inside Coq each run.",
     "note": "Trusted: Coq kernel, Interval, Reals axioms; translator unit Formulas.  The lifting from kernels to PSF-convolved images (FFT commutation, "
@@ -184,7 +185,8 @@ CHECKS.append({
     "design_ref": "DESIGN.md 5 (C02)",
     "technique": "Coq proof (ring identities with sin^2+cos^2=1 on regenerated kernels; interval arithmetic for the enclosed-light fraction) + "
                  "interval translator validation; implementation-side image-moment oracle against an independent float64 reference renderer",
-    "text": "Seven theorems (Props/C02.v) for ALL parameters: X=column, Y=row at integer pixel centres; all three kernels are point-symmetric about (xc,yc) "
+    "text": "Ten theorems (Props/C02.v; the last three: P(m,b) is the regularised incomplete gamma integral, flux*P(2n, b_n (r/re)^(1/n)) is the light curve of the generated 1-D "
+            "profile with growth rate 2 pi r I(r), hence the light between a>0 and r_eff).  For ALL parameters: X=column, Y=row at integer pixel centres; all three kernels are point-symmetric about (xc,yc) "
             "and the Fourier phase is exactly -2pi(FX xc + FY yc); along (-sin theta, cos theta) the elliptical radius is |w|/r_eff, along (cos theta, sin "
             "theta) it is |w|/((1-ellip) r_eff) (theta from +y towards -x, axis ratio 1-ellip, r_eff the semi-major axis of z=1), modulo pi; real-space and "
             "Fourier Gaussians carry the same covariance; P(2n,b_n) in [0.494,0.5005] for 2n=2..12 (partial: integer 2n).",
@@ -213,7 +215,8 @@ CHECKS.append({
     "design_ref": "DESIGN.md 5 (C04), 7",
     "technique": "Coq proof (real analysis: sqrt algebra, field/nra) of the structural reasons the renderers agree, over formulas regenerated from rendering.py "
                  "+ interval correspondence with the arguments the real hybrid renderer passes to its kernels; implementation-side band oracle vs a float64 reference",
-    "text": "Five theorems (Props/C04.v) for all parameters: PSF broadening adds s^2 to both principal variances, so each real-space component of the hybrid "
+    "text": "Six theorems (Props/C04.v) for all parameters: in Fourier space the component the hybrid renderer draws in real space is the Fourier renderer's component times "
+            "exp(-2 pi^2 s^2 |f|^2) (the transfer function of a circular Gaussian PSF); PSF broadening adds s^2 to both principal variances, so each real-space component of the hybrid "
             "renderer is the Gaussian with covariance R diag(sigma^2,q^2 sigma^2) R^T + s^2 I; the component index sets partition 0..n_sigma-1 and coincide "
             "with the Fourier renderer at m=0; the 1-D profile is scale covariant (a unit-flux unit-radius table serves all flux/r_eff); the cubic Hermite "
             "interpolant returns table rows at the knots.  PARTIAL: the numerical bands of the property (12%/10%, 18%/15%, 2%/2%, 6e-3, 1e-3) are not theorems.",
@@ -273,7 +276,7 @@ CHECKS.append({
     "technique": "Coq proof: DFT development over Coquelicot C (geometric sums of roots of unity -> sum(irfft2 F) = Re F[0,0] for every N), zero-frequency "
                  "lemmas on regenerated kernels/ramps, and a Hermite/Bernstein-hull certificate (lra on the table dumped from the running renderer) bounding "
                  "the amplitude sum for EVERY n; interval correspondence of the irfft2 and interpolation models; implementation-side total-flux oracle",
-    "text": "PARTIAL.  Nine theorems (Props/C01.v): the Fourier Gaussian mixture's DC value is the sum of its amplitudes, the point source's is flux, both "
+    "text": "PARTIAL.  Ten theorems (Props/C01.v; the tenth: the sum over all pixels of the centred convolution is total(scene) x sum(psf), spatial form, every N): the Fourier Gaussian mixture's DC value is the sum of its amplitudes, the point source's is flux, both "
             "PSF ramps are 1 at zero frequency; the sum over all pixels of irfft2(F) is Re F[0,0] for every N>=1 and every half-plane array, so FFT "
             "convolution multiplies totals by sum(psf); composites split flux f/1-f; for EVERY Sersic index in [0.8,6] the interpolated unit-flux "
             "amplitudes sum to [0.955,1.045] ([0.98,1.02] on [1.25,4]).  Hence the Fourier renderer's total is sum(psf)*flux*S_T(n) for all positions, "
@@ -286,18 +289,20 @@ CHECKS.append({
 CHECKS.append({
     "property_id": "C03",
     "design_ref": "DESIGN.md 5 (C03), 7",
-    "technique": "Coq proof (roots-of-unity arithmetic in Coquelicot C, field/ring over R) about the PSF phase ramps, Fourier and pixel point-source code "
-                 "regenerated from rendering.py + interval correspondence with the phase PSF_fft/rfft2(psf) of real renderers; implementation-side "
-                 "embedded-stamp / spatial-convolution oracle",
-    "text": "PARTIAL.  Ten theorems (Props/C03.v): both ramps are exp(+2 pi i ((P-1)/2) f) with pi itself (geometric-centre convention); for odd stamps "
-            "this is exactly the root-of-unity phase of an integer circular shift by (P-1)/2, for even stamps a half-pixel phase; the Fourier point source "
-            "is flux times the conjugate phase of a delta at (column xc, row yc); the pixel renderer reads psf[r-yc+a][c-xc+b] (never transposed or "
-            "mirrored, centre entry on the source pixel); FFT convolution preserves totals up to sum(psf); on Z_N the transform pair is inverse and the "
-            "inverse transform of a product of transforms is the circular convolution (1-D, every N); convolving with an impulse is a shift.  The 2-D "
-            "half-plane form of the convolution theorem and bilinear resampling at fractional positions are not theorems.",
-    "note": "Trusted: Coq kernel, Coquelicot (classic), Interval, Reals axioms; translator unit Ramps; the irfft2 model is tied numerically under C01; "
-            "irfft2(rfft2 a * rfft2 b) = circular convolution and map_coordinates(order=1) are modelled/assumed and exercised by the implementation "
-            "oracle (embedded stamps at 2e-5 of the peak, centroids at 0.02 px, spatial convolution of the intrinsic image).",
+    "technique": "Coq proof (roots-of-unity arithmetic in Coquelicot C: DFT inversion, Hermitian symmetry, 1-D/2-D convolution theorems, shift theorem; field/ring over R) about "
+                 "the PSF phase ramps, PSF_fft product, Fourier and pixel point-source code regenerated from rendering.py + interval correspondence with PSF_fft/rfft2(psf), "
+                 "jnp.fft.rfft2 and irfft2(rfft2 a * rfft2 b) of the real code; implementation-side embedded-stamp / spatial-convolution oracle",
+    "text": "PARTIAL (fractional positions only).  Seventeen theorems (Props/C03.v): both ramps are exp(+2 pi i ((P-1)/2) f) with pi itself (geometric-centre "
+            "convention); for odd stamps this is exactly the root-of-unity phase of an integer circular shift by (P-1)/2, for even stamps a half-pixel phase; the "
+            "Fourier point source is flux times the conjugate phase of a delta at (column xc, row yc); the pixel renderer reads psf[r-yc+a][c-xc+b] (never "
+            "transposed or mirrored); FFT convolution preserves totals up to sum(psf); 1-D and 2-D convolution theorems for every N; irfft2 inverts the half-plane "
+            "transform of every real image (Hermitian symmetry proved); hence irfft2(rfft2 a * rfft2 b) is the circular convolution pixel by pixel; with the ramps "
+            "regenerated from the source the whole chain conv_fft(scene)[r,c] = sum scene[y,x] psf[r-y+c0][c-x+c0] for odd stamps, and a unit point on an integer "
+            "pixel renders as the stamp centred on it.  Bilinear resampling / band-limited shifts at fractional positions are not theorems.",
+    "note": "Trusted: Coq kernel, Coquelicot (classic), Interval, Reals axioms; translator unit Ramps; hand models of jnp.fft.rfft2 / irfft2 (dft2, irfft2 in Base/Dft*.v) "
+            "tied numerically on random small arrays (here and under C01); zero-padding of the stamp modelled as an array that is zero outside the stamp; "
+            "map_coordinates(order=1) and fractional positions only through the implementation oracle (embedded stamps at 2e-5 of the peak, centroids at 0.02 px, "
+            "spatial convolution of the intrinsic image).",
 })
 
 _PENDING = "check not built yet in this session (build order in DESIGN.md section 9); will be claimed once its Coq model, theorems and tie exist"
